@@ -1066,11 +1066,16 @@ VSdetach(int32 vkey /* IN: vdata key? */)
 
             /* write new one */
             ret = Hputelement(vs->f, VSDESCTAG, vs->oref, Vhbuf, vspacksize);
-            if (ret == FAIL)
-                HGOTO_ERROR(DFE_WRITEERROR, FAIL);
-
-            vs->marked   = 0;
-            vs->new_h_sz = 0;
+            if (ret == FAIL) {
+                /* report the failure, but still release the vdata below: keeping its
+                   access element attached would make the file impossible to close */
+                HERROR(DFE_WRITEERROR);
+                ret_value = FAIL;
+            }
+            else {
+                vs->marked   = 0;
+                vs->new_h_sz = 0;
+            }
         }
 
         /* remove all defined symbols */
